@@ -409,7 +409,11 @@ def r14_14(run, model):
     def has_check(f, rel):
         for iff in S.find(f.body, "If"):
             lits = [x for x in S.walk(iff["cond"]) if x["k"] == "Lit" and x.get("value") == "main"]
-            if not lits:
+            # the name may come from a description of the entry point (`f.name == entry.function`): what counts is that the list of
+            # top-level functions is searched for a name and the absence is an error
+            ctxt = S.norm_ws(run.facts.text(rel, iff["cond"]["sp"])).replace(" ", "")
+            by_name = re.search(r"toplevels\.iter\(\)\.any\(\|\w+\|\w+\.name==", ctxt) is not None and ctxt.startswith("!")
+            if not lits and not by_name:
                 continue
             if any(r.get("expr") is not None and S.callee_name(r["expr"]) == "Err" for r in S.find(iff["then"], "Return")):
                 return iff
@@ -426,7 +430,7 @@ def r14_14(run, model):
     # the entry point is called as `main0()`: both pipelines also refuse a main with parameters or type parameters
     def sig_check(f, rel):
         txt = S.norm_ws(run.facts.text(rel, f.body["sp"]))
-        if re.search(r"params\.is_empty\(\)", txt) and '"main"' in txt:
+        if re.search(r"params\.is_empty\(\)", txt) and ('"main"' in txt or re.search(r"\.name\s*==", txt)):
             return True
         for c in S.walk(f.body):
             if c["k"] in ("Call", "MethodCall") and S.callee_name(c):
@@ -434,7 +438,7 @@ def r14_14(run, model):
                     for g in model.find_fns(S.callee_name(c), rel2):
                         if g.body is not None:
                             t2 = S.norm_ws(run.facts.text(rel2, g.body["sp"]))
-                            if re.search(r"params\.is_empty\(\)", t2) and '"main"' in t2:
+                            if re.search(r"params\.is_empty\(\)", t2) and ('"main"' in t2 or re.search(r"\.name\s*==", t2)):
                                 return True
         return False
     for f, rel in [(lc, SEP)] + [(g, PIPE) for g in whole]:
